@@ -55,11 +55,5 @@ __CPROVER_ensures(verif_free_calls == LOGS_M(self))
 #endif
 ;
 
-array_count_t model_allocator_checkpoint_restore(struct mm_state *self, array_count_t ref_i)
-__CPROVER_requires(__CPROVER_rw_ok(self, sizeof(*self)))
-__CPROVER_requires(LOGS_SHAPE(self))
-__CPROVER_requires(self->logs.items[0].ref_i <= ref_i)
-__CPROVER_requires(LOGS_GHOST_BOUND(self) && verif_free_calls == 0)
-;
 
 #endif
